@@ -96,7 +96,7 @@ def segOk (want : Bytes) (seg : List Ev) : Bool :=
 
 def cShape : Input → Trace → Bool
   | .eq .., .eq .. | .text _, .text .. | .json _, .json .. | .decode .., .decode .. | .stream _, .stream _
-  | .ctype _, .ctype .. | .copy .., .copy _ => true
+  | .ctype _, .ctype .. | .ctypeSeq _, .ctypeSeq _ | .copy .., .copy _ => true
   | _, _ => false
 
 /-- a Content's bytes are what its source yields -/
@@ -159,6 +159,14 @@ def cCtRoundtrip : Input → Trace → Bool
   | .ctype ct, .ctype _ parsed => parsed == .ok { ct with params := sortParams ct.params }
   | _, _ => true
 
+/-- … whatever was parsed before in the same process: each content type of a sequence comes back as itself, type / subtype /
+parameter names lower-cased (they are case-insensitive), parameter VALUES exactly as given -/
+def cCtHistory : Input → Trace → Bool
+  | .ctypeSeq cts, .ctypeSeq rs =>
+    rs.length == cts.length &&
+    (cts.zip rs).all fun q => q.2.2 == .ok { q.1.lowered with params := sortParams q.1.lowered.params }
+  | _, _ => true
+
 /-- state of the source when the `k`-th copy was taken, by replaying the history -/
 def snapshots (cur : List Bytes) : List CopyOp → List (List Bytes)
   | [] => []
@@ -198,7 +206,8 @@ def cSnapshot : Input → Trace → Bool
 def clauses : List (String × (Input → Trace → Bool)) :=
   [("shape", cShape), ("bytes", cBytes), ("equality", cEq), ("text-roundtrip", cText), ("json-roundtrip", cJson),
    ("chunking-independent", cChunking), ("charset", cCharset), ("chunk-sizes", cChunkSizes),
-   ("chunk-concat", cChunkConcat), ("lazy", cLazy), ("ct-roundtrip", cCtRoundtrip), ("snapshot", cSnapshot)]
+   ("chunk-concat", cChunkConcat), ("lazy", cLazy), ("ct-roundtrip", cCtRoundtrip), ("ct-history-independent", cCtHistory),
+   ("snapshot", cSnapshot)]
 
 def holds (i : Input) (t : Trace) : Bool := clauses.all fun c => c.2 i t
 
